@@ -433,24 +433,6 @@ func FWrite[T interface{ Write([]byte) (int, error) }](f T, b []byte) (int, erro
 	return n, err
 }
 
-// FTruncate: x.Truncate(size) on a file (a scheduling point and a fault point;
-// other types with a Truncate method pass through).
-func FTruncate[T interface{ Truncate(int64) error }](f T, size int64) error {
-	name, ok := fname(any(f))
-	if !ok {
-		return f.Truncate(size)
-	}
-	e, inj := pre("File.Truncate", name, fmt.Sprint(size))
-	if inj != nil {
-		err := perr("truncate", name, inj.Errno)
-		post(e, err, true)
-		return err
-	}
-	err := f.Truncate(size)
-	post(e, err, false)
-	return err
-}
-
 func FWriteAt[T interface {
 	WriteAt([]byte, int64) (int, error)
 }](f T, b []byte, off int64) (int, error) {
